@@ -101,6 +101,11 @@ Theorem C10_union_of_wellformed_shards_is_wellformed : forall fa ca ta ka cra ex
   ShardOk fu cu (d_ctbl cu) zero_hash 0 u64max.
 Proof. exact union_shard_ok. Qed.
 
+(* ... and for a whole consolidation group: UnionsOk (every intermediate union is a well-formed shard) and ShardOk of the
+   final union follow from well-formed inputs, no step meeting a K2 pair, and the size bounds of the intermediate results *)
+Theorem C10_group_unions_are_wellformed : forall g acc, ss_ok acc -> Forall ss_ok g -> StepsFit acc g -> UnionsOk acc g /\ ss_ok (ss_unions acc g).
+Proof. exact unions_ok_from_steps. Qed.
+
 (* known finding K2, on the model's side: two well-formed records of one file whose segment lists differ -- the same bytes
    deduplicated differently by two sessions -- merge into a record that is not well-formed: the segments of one, the
    verification entries of the other (two segments, three verification entries).  On disk (shard_set_union's Merge branch)
@@ -130,3 +135,4 @@ Print Assumptions C10_merge_of_resegmented_records_refuted.
 Print Assumptions C10_merge_from_of_resegmented_records_refuted.
 Print Assumptions C10_merge_of_same_segmentation_is_wellformed.
 Print Assumptions C10_union_of_wellformed_shards_is_wellformed.
+Print Assumptions C10_group_unions_are_wellformed.
